@@ -62,7 +62,9 @@ class Post:
             return None
         if self.lot is None:
             return self.amt.sym
-        return ('%s~{%s%s/%s %s}' % (self.amt.sym, '=' if getattr(self, 'lot_fixed', False) else '', self.lot.value.numerator, self.lot.value.denominator, self.lot.sym) +
+        # (whether the price is written {=P} or {P} is not part of the key: ledger keeps ONE commodity per price, and which
+        # of the two ways of writing it shows depends on which was seen first)
+        return ('%s~{%s/%s %s}' % (self.amt.sym, self.lot.value.numerator, self.lot.value.denominator, self.lot.sym) +
                 (' [%s]' % self.lot_date if getattr(self, 'lot_date', None) else '') +
                 (' (%s)' % self.lot_note if getattr(self, 'lot_note', None) else ''))
 
@@ -231,7 +233,7 @@ def canon_amount(r):
             mm = re.fullmatch(r'(\D*?)\s*(-?[\d.,]+)\s*(\D*)', pt)
             psym = (mm.group(1) or mm.group(3)).strip()
             pv = F(mm.group(2).replace(',', ''))
-            key = '%s~{%s%s/%s %s}' % (sym, '=' if fixed else '', pv.numerator, pv.denominator, psym)
+            key = '%s~{%s/%s %s}' % (sym, pv.numerator, pv.denominator, psym)
             dm = re.search(r'\[([^\]]*)\]', ann)
             nm = re.search(r'\(([^)]*)\)', ann[pm.end():])
             if dm:
